@@ -222,6 +222,10 @@ def rule_a_c_d(repo, chk, w):
         q = pat.guarded_by(g, r, pat.test_edge(lambda t, pol: pat.fact_matches(pat.compare_fact(t, pol), 'state.event', ('==', 'is'), f'{ev}.parent')))
         chk.ob('c', on_done.ref, 'the waiter is resumed only by the done event of the awaited event', q is None, loc(on_done, r.ast),
                path=pat.path_lines(q) if q else None, discr='resume-identity')
+        # … which presupposes that the wait has seen its event: before that `state.event` is None, and so is the parent of any event that is nobody's child
+        qn = pat.guarded_by(g, r, pat.test_edge(lambda t, pol: pat.fact_matches(pat.compare_fact(t, pol), 'state.event', ('is not', '!='), 'None')))
+        chk.ob('c', on_done.ref, 'the waiter is not resumed before the wait has seen the awaited event (an application event named <name>_done has no parent either)', qn is None,
+               loc(on_done, r.ast), path=pat.path_lines(qn) if qn else None, discr='resume-after-armed')
         c = [c for _r, c in pat.method_calls(r.ast, 'registerTask')][0]
         ok = src(c.args[0]).replace(' ', '') == '(state.task_event,state.task,state.parent)'
         chk.ob('c', on_done.ref, 'the resumed task is the waiting generator with its event and caller', ok, loc(on_done, c), detail=f'`{src(c)}`',
@@ -262,8 +266,15 @@ def rule_a_c_d(repo, chk, w):
     # --- scenario timeout ---------------------------------------------------------
     g = on_tick.cfg()
     fire_edges = [e for n in g.nodes if n.kind == 'test' for e in n.succ
-                  if pat.fact_matches(pat.compare_fact(n.ast, e.kind), 'state.timeout', ('==',), '0')]
+                  if pat.fact_matches(pat.compare_fact(n.ast, e.kind), 'state.timeout', ('==', '<='), '0')]
+    # (not the edge of a later test that can only be reached when the timeout was found positive just before: that combination does not exist)
+    still_running = [e for n in g.nodes if n.kind == 'test' for e in n.succ if pat.fact_matches(pat.compare_fact(n.ast, e.kind), 'state.timeout', ('>',), '0')]
+    fire_edges = [e for e in fire_edges if Q.reachable_without(g, e.src, avoid_edge=lambda x: x in still_running and x.src is not e.src) is not None]
     need(fire_edges, 'C06.a: _on_tick has no expiry test')
+    # the countdown steps by one from whatever number the caller gave: expiry is "not above zero", not "equal to zero" (0.5 steps over zero)
+    exact = [e for e in fire_edges if pat.fact_matches(pat.compare_fact(e.src.ast, e.kind), 'state.timeout', ('==',), '0')]
+    chk.ob('d', on_tick.ref, 'the countdown expires when it is no longer positive (a timeout that is not a whole number must not step over the expiry test)', not exact,
+           loc(on_tick, (exact or fire_edges)[0].src.ast), discr='expiry-not-exact')
     for e in fire_edges:
         wrap = [n for n in g.nodes if n.kind == 'stmt' and any(
             c.args and all('ExceptionWrapper(TimeoutError())' in src(v) for v in pat.deref(on_tick, c.args[0])) for _r, c in pat.method_calls(n.ast, 'registerTask'))]
